@@ -26,7 +26,7 @@ Definition leaf_join (l m : leaf) : leaf :=
 
 (* OcTreeLeaf::to_rgba: integer division, `as u8`; color_count = 0 divides by zero *)
 Definition leaf_rgb (l : leaf) : outcome rgb :=
-  if l_n l =? 0 then Panic 1073
+  if l_n l =? 0 then Panic 1104
   else Ok ((l_r l / l_n l) mod 256, (l_g l / l_n l) mod 256, (l_b l / l_n l) mod 256).
 
 Record info := mkInfo { i_leaves : N; i_colors : N; i_min : option N }.
@@ -97,7 +97,7 @@ Fixpoint path_n (n : nat) (c : rgb) : list nat :=
 
 Definition path_of (c : rgb) : list nat := path_n 8 c.
 
-(* the packed form, exactly as coded, for cross-checking (KDTree... see OctreeProofs.path_packed_ok) *)
+(* the packed form, exactly as coded; OctreePath.path_packed_eq proves it equal to path_of for every colour *)
 Definition packed_step (state : N) : nat * N :=
   let bits := N.land state 0x808080 in
   let state' := N.land (N.shiftl state 1) 0xfefefe in
@@ -135,13 +135,13 @@ Fixpoint insert_rec (path : list nat) (c : rgb) (n : node) : outcome node :=
       match n with
       | Empty => Ok (Leaf (leaf_of c))
       | Leaf l => Ok (Leaf (leaf_add l c))
-      | Tree _ _ _ => Panic 1305                     (* unreachable!() *)
+      | Tree _ _ _ => Panic 1336                     (* unreachable!() *)
       end
   end.
 
 Definition oc_insert (t : octree) (c : rgb) : outcome octree :=
-  match path_of c with
-  | [] => Panic 1311                                  (* expect("OcTreePath can not be empty") *)
+  match path_packed c with          (* OcTreePath::new(color), as coded; = path_of c (OctreePath.path_packed_eq) *)
+  | [] => Panic 1342                                  (* expect("OcTreePath can not be empty") *)
   | k :: rest =>
       let* child := insert_rec rest c (nth k (o_children t) Empty) in
       let ch' := set_at k child (o_children t) in
@@ -176,50 +176,63 @@ Definition argmin (ch : list node) : option nat :=
 
 Definition all_empty (ch : list node) : bool := forallb is_empty ch.
 
-(* prune_rec(tree: Box<OcTree>) -> OcTreeNode; only ever applied to Tree nodes.
-   The `Empty => unreachable!()` arm cannot be taken (argmin only returns
-   children whose info has a minimum); the model returns the node unchanged
-   there, which could only hurt the termination theorem, never help it. *)
-Fixpoint prune_rec (n : node) : node :=
+(* children[k] := f(children[k]) for an f that may panic *)
+Section MapAtO.
+  Variable f : node -> outcome node.
+  Fixpoint map_at_o (l : list node) (k : nat) {struct l} : outcome (list node) :=
+    match l with
+    | [] => Ok []
+    | x :: r =>
+        match k with
+        | O => let* y := f x in Ok (y :: r)
+        | S k' => let* r' := map_at_o r k' in Ok (x :: r')
+        end
+    end.
+End MapAtO.
+
+(* prune_rec(tree: Box<OcTree>) -> OcTreeNode; by its type only ever applied to Tree nodes.
+   The `Empty => unreachable!()` arm is a Panic of the model (OctreeProofs shows it is
+   never taken on well-formed trees: argmin only returns children whose info has a minimum). *)
+Fixpoint prune_rec (n : node) : outcome node :=
   match n with
   | Tree i rm ch =>
       match argmin ch with
-      | None => Leaf rm
+      | None => Ok (Leaf rm)
       | Some k =>
           match nth k ch Empty with
-          | Empty => n
+          | Empty => Panic 1373                        (* unreachable!("agrmin_color_count found and empty node") *)
           | Leaf l =>
               (* tree.removed += leaf; NO node_update: info stays as it was *)
               let rm' := leaf_join rm l in
               let ch' := set_at k Empty ch in
-              if all_empty ch' then Leaf rm' else Tree i rm' ch'
+              if all_empty ch' then Ok (Leaf rm') else Ok (Tree i rm' ch')
           | Tree _ _ _ =>
-              let ch1 := map_at prune_rec ch k in
+              let* ch1 := map_at_o prune_rec ch k in
               match nth k ch1 Empty with
               | Leaf l =>
-                  if all_empty (set_at k Empty ch) then Leaf (leaf_join rm l)
-                  else Tree (from_slice ch1) rm ch1
-              | _ => Tree (from_slice ch1) rm ch1
+                  if all_empty (set_at k Empty ch) then Ok (Leaf (leaf_join rm l))
+                  else Ok (Tree (from_slice ch1) rm ch1)
+              | _ => Ok (Tree (from_slice ch1) rm ch1)
               end
           end
       end
-  | _ => n
+  | _ => Ok n
   end.
 
 (* OcTree::prune on the root *)
-Definition oc_prune (t : octree) : octree :=
+Definition oc_prune (t : octree) : outcome octree :=
   let ch := o_children t in
   match argmin ch with
-  | None => t
+  | None => Ok t
   | Some k =>
       match nth k ch Empty with
-      | Empty => t
+      | Empty => Panic 1401                            (* unreachable!(..) *)
       | Leaf l =>
           (* self.removed += leaf; the root's info is NOT recomputed *)
-          mkOc (o_info t) (leaf_join (o_removed t) l) (set_at k Empty ch)
+          Ok (mkOc (o_info t) (leaf_join (o_removed t) l) (set_at k Empty ch))
       | Tree _ _ _ =>
-          let ch1 := map_at prune_rec ch k in
-          mkOc (from_slice ch1) (o_removed t) ch1
+          let* ch1 := map_at_o prune_rec ch k in
+          Ok (mkOc (from_slice ch1) (o_removed t) ch1)
       end
   end.
 
@@ -228,7 +241,7 @@ Fixpoint prune_until_fuel (fuel : nat) (k : N) (t : octree) : outcome octree :=
   if i_leaves (o_info t) <=? N.max k 8 then Ok t
   else match fuel with
        | O => OutOfFuel
-       | S f => prune_until_fuel f k (oc_prune t)
+       | S f => let* t' := oc_prune t in prune_until_fuel f k t'
        end.
 
 (* number of prune() calls the loop makes (for the harness) and a measure that
@@ -291,6 +304,9 @@ Fixpoint digraph_node (n : node) : list dnode :=
       [DTree (i_leaves i) (match i_min i with Some m => m | None => 0 end)
              (flat_map digraph_node ch)]
   end.
+
+(* to_digraph calls leaf.to_rgba(): a leaf with color_count 0 divides by zero *)
+Definition has_zero_leaf (t : octree) : bool := existsb (fun l => l_n l =? 0) (oc_leaves t).
 
 Definition digraph (t : octree) : dnode :=
   DTree (i_leaves (o_info t)) (match i_min (o_info t) with Some m => m | None => 0 end)
